@@ -48,6 +48,9 @@ type C17In struct {
 	// configuration paths: the request goes to the real apps/nsqadmin binary started from this
 	// launch (Admins / Header / CIDR then say what the launch means, for generation and tags)
 	Launch *LaunchIn `json:"launch,omitempty"`
+	// run-time reconfiguration: the request goes to an in-process nsqadmin started with the lists of
+	// Mode whose /config has since answered this history (c17reconf.go)
+	Reconf *ReconfIn `json:"reconf,omitempty"`
 }
 
 type cluster struct {
@@ -97,6 +100,8 @@ func modeLists(mode string) (ls, ns []string) {
 		return []string{"L0", "L1"}, nil
 	case "L3d":
 		return []string{"L0", "LD", "L1"}, nil
+	case "D1":
+		return nil, []string{"N0"}
 	case "D2":
 		return nil, []string{"N0", "N1"}
 	case "D3d":
@@ -117,11 +122,29 @@ func contains(xs []string, x string) bool {
 
 // ---------------------------------------------------------------- one case
 
+var optionsNotRestored int
+
 func runC17Case(o *lib.Out, cl *cluster, in C17In) {
 	var lnames, nnames []string
 	var a *Admin
 	var ln *launched
-	if in.Launch != nil {
+	var ra *reconfAdmin
+	var l0, n0 []string // reconfiguration: the lists nsqadmin was started with
+	if in.Reconf != nil {
+		ls, ns := modeLists(in.Mode)
+		cfg := AdminCfg{Admins: in.Admins, Header: in.Header, CIDR: in.CIDR}
+		for _, l := range ls {
+			cfg.Lookupds = append(cfg.Lookupds, cl.addr(l))
+		}
+		for _, n := range ns {
+			cfg.Nsqds = append(cfg.Nsqds, cl.addr(n))
+		}
+		l0, n0 = cfg.Lookupds, cfg.Nsqds
+		ra = getReconfAdmin(cl, cfg, in.Reconf)
+		a = ra.a
+		// the case's world lists every stub: which of them are in force is the judge's business
+		lnames, nnames = []string{"L0", "L1", "L2", "LD"}, []string{"N0", "N1", "N2", "N3", "ND"}
+	} else if in.Launch != nil {
 		// the case's world lists every stub the launch could mean: which of them are configured is the judge's business
 		// (every stub the launch names anywhere, on the command line or in the file)
 		lnames, nnames = in.Launch.stubsNamed()
@@ -330,7 +353,14 @@ func runC17Case(o *lib.Out, cl *cluster, in C17In) {
 			st, _ := readOpt("PUT", orig)
 			_, again := readOpt("GET", nil)
 			if st != 200 || string(again) != string(before) {
-				lib.Fatalf("could not restore option %s (status %d, %q vs %q)", in.Opt, st, again, before)
+				if ln != nil {
+					lib.Fatalf("could not restore option %s (status %d, %q vs %q)", in.Opt, st, again, before)
+				}
+				// this instance no longer has the configuration its key says: the next case with this
+				// configuration gets a fresh one (what went wrong is the business of the cases that
+				// read the list back, c17reconf.go)
+				retireAdmin(a)
+				optionsNotRestored++
 			}
 		}
 	}
@@ -390,7 +420,11 @@ func runC17Case(o *lib.Out, cl *cluster, in C17In) {
 			status, lib.CoqBool(warn), coqCalls(calls), lib.CoqBool(swapped))
 	}
 	var term string
-	if ln != nil {
+	if ra != nil {
+		// the lists in force are NOT stated: the judge works them out from the start lists and the history
+		term = fmt.Sprintf("(J17.CReconf %s %s %s %s)", cbl(l0), cbl(n0), coqSteps(cl, in.Reconf, ra.obs),
+			mkTerm(cbl(in.Admins), cb(a.cfgHeader()), coqCIDR(in.CIDR)))
+	} else if ln != nil {
 		// the configuration is NOT stated: the judge works it out from the launch
 		launch, cidrTab := coqLaunch(cl, in.Launch)
 		term = fmt.Sprintf("(J17.CLaunch %s %s %s)", launch, cidrTab, mkTerm("[]", "[]", "None"))
@@ -417,6 +451,35 @@ func runC17Case(o *lib.Out, cl *cluster, in C17In) {
 		tags = append(tags, "body="+in.BodyClass)
 	}
 	obs := map[string]interface{}{"status": status, "calls": calls, "swapped": swapped, "warn": warn}
+	if ra != nil {
+		inForce := "start"
+		written := 0
+		for i, st := range in.Reconf.Steps {
+			tags = append(tags, fmt.Sprintf("reconf-step=%s/%s/%d", st.Kind, st.Transport, ra.obs[i].Status))
+			if st.Method == "PUT" && st.Opt == "nsqlookupd_http_addresses" && ra.obs[i].Status == 200 {
+				written++
+			}
+		}
+		var after []string
+		if n := len(ra.obs); n > 0 {
+			after = ra.obs[n-1].After
+		} else {
+			after = l0
+		}
+		switch {
+		case len(after) > 0 && len(n0) > 0:
+			inForce = "both-lists"
+		case len(after) > 0:
+			inForce = "lookupd-only"
+		case len(n0) > 0:
+			inForce = "nsqd-only"
+		default:
+			inForce = "no-list"
+		}
+		tags = append(tags, "reconf", "reconf-start="+in.Mode, "reconf-history="+in.Reconf.Template, "reconf-in-force="+inForce,
+			fmt.Sprintf("reconf-lists-written=%d", written), "reconf-cidr="+cidrTag)
+		obs["reconf_start_lookupds"], obs["reconf_start_nsqds"], obs["reconf_steps"] = l0, n0, ra.obs
+	}
 	if ln != nil {
 		tags = append(tags, "config-path", "launch-up="+strconv.FormatBool(ln.up), "listen-address-in="+in.Launch.HTTPIn, "args="+in.Launch.ArgStyle)
 		for _, s := range strings.Fields(in.Launch.Sources) {
@@ -868,6 +931,12 @@ func runC17(o *lib.Out, r *lib.Rand, n int, replay string) {
 			up++
 		}
 	}
+	// (6) run-time reconfiguration of the upstream addresses through /config, then every action
+	for _, in := range genReconf(r, &k, extra) {
+		run(in)
+	}
+	o.Stat("nsqadmin_reconfigured_instances", len(reconfAdmins))
+	o.Stat("nsqadmin_instances_retired_option_not_restored", optionsNotRestored)
 	o.Stat("nsqadmin_instances", len(admins))
 	o.Stat("nsqadmin_launches", len(launches))
 	o.Stat("nsqadmin_launches_up", up)
